@@ -54,6 +54,8 @@ def cases(tier, base_seed):
             return {"mode": "even", "k": k}
         if rng.random() < 0.12:
             gen.make_collinear(frame, rng)      # total extent degenerate in one axis only
+        if rng.random() < 0.15:
+            gen.shift_spec(frame, rng.choice((-8.0, -20.0, 500000.0)))
         pre = None
         if rng.random() < 0.3:
             pre = {"warm": rng.random() < 0.7, "mod": rng.choice((2, 3, 4)), "rem": rng.randint(0, 1)}
